@@ -48,6 +48,10 @@ def check(repo, col, tier):
     _named(repo, col)
     _basestate(repo, col)
     keyclass_on_base(repo, col, "R-C11-keyclass")
+    # a group keeps naming its own compartments after set_ncomp renumbered the rows (shared with C10/C13/C19)
+    from . import c13 as _c13
+    col.rule("R-C11-relabel", "row-label registries (groups, ...) are guarded or rewritten when rows are renumbered", 4)
+    _c13.relabel(repo, col, "R-C11-relabel")
     col.rule("R-C11-inview", "what a view lists (channels, local edge numbers) is computed from the rows in view", 3)
     channels_in_view(repo, col, "R-C11-inview")
     synapse_view_local_index(repo, col, "R-C11-inview")
@@ -262,6 +266,7 @@ def group_normal_form(repo, col, R="R-C11-groups"):
                 v = w.value
                 if v is None:
                     continue
+                v = idx.inline(repo, m, v, value_only=True)   # a local helper that computes the entry is looked through
                 n += 1
                 merges = T.find(v, lambda x: x.op in ("mcall", "call") and x.name in ("concatenate", "hstack", "append", "union1d", "extend")) is not None
                 normal = T.find(v, lambda x: x.op in ("mcall", "call") and x.name in ("unique", "union1d")) is not None
@@ -318,9 +323,32 @@ def _named(repo, col, R="R-C11-filter"):
     sel_calls = [x for t_ in terms for x in t_.walk() if x.op == "mcall" and x.name == "select" and len(x.args) > 1]
     key_p = fi.params[1]
     # groups
-    grp = [x for x in sel_calls if T.find(x.args[1], lambda y: y.op == "sub" and y.args[0].op == "attr" and y.args[0].name == "groups") is not None]
-    ok = any(T.find(x.args[1], lambda y: y.op == "sub" and y.args[0].op == "attr" and y.args[0].name == "groups" and _is_self(y.args[0].args[0]) and
-                    y.args[1].op == "param" and y.args[1].name == key_p) is not None and _is_self(x.args[0]) for x in grp)
+    def group_lookup(y, own_only=False):
+        """self.groups[key] / self.groups.get(key, ...)"""
+        if y.op == "sub" and y.args[0].op == "attr" and y.args[0].name == "groups":
+            return (not own_only) or (_is_self(y.args[0].args[0]) and y.args[1].op == "param" and y.args[1].name == key_p)
+        if y.op == "mcall" and y.name == "get" and y.args and y.args[0].op == "attr" and y.args[0].name == "groups" and len(y.args) >= 2:
+            return (not own_only) or (_is_self(y.args[0].args[0]) and y.args[1].op == "param" and y.args[1].name == key_p)
+        return False
+    grp = [x for x in sel_calls if T.find(x.args[1], lambda y: group_lookup(y)) is not None]
+    ok = any(T.find(x.args[1], lambda y: group_lookup(y, True)) is not None and _is_self(x.args[0]) for x in grp)
+    # the whole view (`select(None)`) stands in only for a group the view does not know at all -- never for a group whose part in
+    # view is EMPTY (that selection is empty and `select` refuses it; falling back to everything in view would let `set` through
+    # `view.<group>` write compartments that are not in the group)
+    for t_ in terms:
+        for ie in [y for y in t_.walk() if y.op == "ifexp"]:
+            alts = [ie.args[1], ie.args[2]]
+            whole = [a_ for a_ in alts if a_.op == "mcall" and a_.name == "select" and len(a_.args) > 1 and a_.args[1].op == "const" and a_.args[1].name is None]
+            part = [a_ for a_ in alts if a_.op == "mcall" and a_.name == "select" and len(a_.args) > 1 and T.find(a_.args[1], lambda y: group_lookup(y)) is not None]
+            if whole and part:
+                c_ = ie.args[0]
+                while c_.op == "not" or (c_.op == "unary" and c_.name == "Not"):
+                    c_ = c_.args[0]
+                member = c_.op == "cmp" and c_.name in ("in", "not in") and c_.args[0].op == "param" and c_.args[0].name == key_p and \
+                    T.find(c_.args[1], lambda y: y.op == "attr" and y.name == "groups") is not None
+                col.check(member, R, fi, "the whole view stands in only for a group the view does not list", "if key in self.groups",
+                          f"the fallback to everything in view is decided by `{c_.short(60)}`: a group whose part in this view is empty then "
+                          f"selects the WHOLE view instead of nothing", node=fi.node)
     wrong = bool(grp) and not ok
     col.add(R, fi, "group name selects the view's own part of the group", "DISCHARGED" if ok else ("VIOLATED" if wrong else "UNDECIDED"),
             "self.select(self.groups[key])" if ok else f"group selection is {grp[0].short(100) if grp else None}: a group reached through a view must "
